@@ -154,6 +154,28 @@ func init() {
 					hs[i].Shutdown()
 				}
 				time.Sleep(30 * time.Millisecond)
+				// a read that owns a slot gives it back when its reader has noticed the cancellation (a follower polls
+				// every 100 ms; on a loaded machine that can take longer than the observation window): wait for the
+				// release itself - up to 3 s; a slot that is still held then is what the oracle reports
+				if hookSeen([]string{"limiter.acquired"}, paths[i], 0) {
+					held := func() bool {
+						limMu.Lock()
+						defer limMu.Unlock()
+						n := 0
+						for _, e := range limLog {
+							if e == "limiter.acquired "+paths[i] {
+								n++
+							} else if e == "limiter.released "+paths[i] {
+								n--
+							}
+						}
+						return n > 0
+					}
+					deadline := time.Now().Add(3 * time.Second)
+					for time.Now().Before(deadline) && held() {
+						time.Sleep(5 * time.Millisecond)
+					}
+				}
 			case "trunc", "truncstop":
 				// the followed file is truncated: within ~3 s the reader notices, closes the file, pauses 2 s and
 				// re-opens it (keeping its slot).  "truncstop" ends the session during that pause.
